@@ -64,6 +64,23 @@ def parseTerm (t : String) : Option Text.Term :=
       some { idx := i, isScalar := sc == "1", c := c }
   | _ => none
 
+def parseStoreOp (t : String) : Option Store.Op :=
+  match t.splitOn ":" with
+  | ["p", args] => (parseNats args).map Store.Op.pure
+  | ["m", tgt] => tgt.toNat?.map Store.Op.mutate
+  | _ => none
+
+/-- replay a history: per step `result-address:changed-addresses` -/
+def histReplay (n0 : Nat) (ops : List Store.Op) : String :=
+  let rec go (h : Store.Heap) (ops : List Store.Op) (acc : List String) : List String :=
+    match ops with
+    | [] => acc.reverse
+    | op :: rest =>
+      let (h', r) := Store.step h op
+      let changed := (List.range h.length).filter fun a => h'.getD a 0 != h.getD a 0
+      go h' rest (s!"{r}:{showNats changed}" :: acc)
+  ";".intercalate (go (List.replicate n0 0) ops [])
+
 abbrev St := Std.HashMap String Ctx
 
 def showMat (m : Array (Array Rat)) : String := ";".intercalate (m.toList.map showMV)
@@ -211,6 +228,16 @@ def handle (st : St) (line : String) : St × String :=
       match dimsTo.toNat?, (froms.splitOn ";").mapM parseMV, (tos.splitOn ";").mapM parseMV, parseMV a with
       | some d, some fs, some ts, some a => (st, showMV (bladeMapApply d (fs.zip ts) a))
       | _, _, _, _ => (st, "err parse")
+  | ["HIST", n0, ops] =>
+      match n0.toNat?, (ops.splitOn ";").mapM parseStoreOp with
+      | some n0, some ops => (st, histReplay n0 ops)
+      | _, _ => (st, "err parse")
+  | ["DRAWS", k, n, pos] =>
+      match k.toNat?, n.toNat?, pos.toNat? with
+      | some k, some n, some pos =>
+        let r := Store.drawMany k n { pos := pos }
+        (st, ";".intercalate (r.1.map showNats) ++ s!" {r.2.pos}")
+      | _, _, _ => (st, "err parse")
   | ["KIND", a, b] =>
       match Kind.ofString a, Kind.ofString b with
       | some a, some b => (st, (promote a b).toString)
